@@ -88,7 +88,11 @@ local susp = coroutine.create(function() coroutine.yield() end) coroutine.resume
 local fresh = coroutine.create(function(...) return ... end)
 local big = {} for i = 1, 300 do big[i] = i end
 local weird = setmetatable({}, {__metatable = false, __gc = bad, __mode = "kv"})
-return evil, rec, dead, susp, fresh, big, weird, function(...) return ... end, bad, io.stdout, io.stderr, selfidx, runtime.context()
+local callself = {} setmetatable(callself, {__call = callself})
+local callchain = setmetatable({}, {__call = setmetatable({}, {__call = function(...) return select("#", ...) end})})
+local lenself = setmetatable({}, {__len = function(t) return #t end})
+local eqloop = setmetatable({}, {__eq = function(a, b) return a == b end, __lt = function(a, b) return a < b end, __concat = function(a, b) return a .. b end})
+return evil, rec, dead, susp, fresh, big, weird, function(...) return ... end, bad, io.stdout, io.stderr, selfidx, runtime.context(), callself, callchain, lenself, eqloop
 `
 
 func corrupt(g *core.Tape, src string) (string, string) {
@@ -227,6 +231,38 @@ var ramps = []rampT{
 	{"load-nesting", func(n int) string {
 		return fmt.Sprintf("local function f(k) if k == 0 then return 0 end return 1 + load('return ...')(f(k - 1)) end return f(%d)", n)
 	}, func(n int) string { return fmt.Sprintf("return(%d)", n) }},
+	{"table-constructor-vararg", func(n int) string {
+		return "local function f(...) local t = {" + strings.Repeat("1,", n) + "...} return #t end return f(7, 8)"
+	}, func(n int) string { return fmt.Sprintf("return(%d)", n+2) }},
+	{"vararg-multi-assign", func(n int) string {
+		var b strings.Builder
+		b.WriteString("local function f(...) local v0")
+		for i := 1; i < n; i++ {
+			fmt.Fprintf(&b, ", v%d", i)
+		}
+		b.WriteString(" = ... return v0 end return f(5)")
+		return b.String()
+	}, func(n int) string { return "return(5)" }},
+	{"tbc-count", func(n int) string {
+		var b strings.Builder
+		for i := 0; i < n; i++ {
+			fmt.Fprintf(&b, "local c%d <close> = nil\n", i)
+		}
+		b.WriteString("return 1")
+		return b.String()
+	}, func(n int) string { return "return(1)" }},
+	{"call-results", func(n int) string {
+		return "local function f() return " + strings.Repeat("1,", n) + "1 end return select('#', f())"
+	}, func(n int) string { return fmt.Sprintf("return(%d)", n+1) }},
+	{"nested-tables", func(n int) string {
+		return "local t = " + strings.Repeat("{", n) + strings.Repeat("}", n) + " return type(t)"
+	}, func(n int) string { return `return("table")` }},
+	{"unary-minus-chain", func(n int) string { return "local x = 1 return " + strings.Repeat("- ", n) + "x" }, func(n int) string {
+		if n%2 == 0 {
+			return "return(1)"
+		}
+		return "return(-1)"
+	}},
 	{"long-string", func(n int) string { return `return #"` + strings.Repeat("ab", n) + `"` }, func(n int) string { return fmt.Sprintf("return(%d)", 2*n) }},
 	{"long-comment-levels", func(n int) string {
 		eq := strings.Repeat("=", n)
@@ -296,6 +332,20 @@ func runCrash(ctx *core.RunCtx) {
 		nargs := g.Weighted(1, 3, 4, 3, 2)
 		var args []rt.Value
 		var desc []string
+		if (strings.Contains(fn.path, "string") || strings.Contains(fn.path, "utf8")) && g.Chance(1, 2) {
+			// (subject, pattern-or-format, position, position): the shape these functions expect
+			subj := []string{"", "a", "abc", "hello world", "aaaa", "\xe2\x82\xac", "%d", "x=1, y=2"}[g.Choose(8)]
+			pats := []string{"^a*", "a*", ".", "^", "$", "(a)(b)", "%w+", "()", "a-", "[a-c]", "%d+", "^(.-)$", "%f[%w]", "%bxy", "(", "%", "[", "%1", ".-b", "x*"}
+			args = append(args, rt.StringValue(subj), rt.StringValue(pats[g.Choose(len(pats))]))
+			desc = append(desc, fmt.Sprintf("%q", subj), "pattern")
+			for i := 0; i < g.Choose(3); i++ {
+				n := int64(g.Choose(24) - 8)
+				args = append(args, rt.IntValue(n))
+				desc = append(desc, fmt.Sprint(n))
+			}
+			desc[1] = fmt.Sprintf("%q", args[1].AsString())
+			nargs = 0
+		}
 		for i := 0; i < nargs; i++ {
 			v, d := edgeValue(g, h, sp.Values)
 			args = append(args, v)
